@@ -75,6 +75,8 @@ CallsQuick == {
     BT("office001", A3, NoV, NoV, TRUE, FALSE), BT("caltech", NoV, A4, <<12>>, FALSE, FALSE),
     BT("office001", NoV, A2, <<5>>, FALSE, TRUE), BT("ucla", A1, NoV, NoV, FALSE, FALSE),
     BT("ucla", NoV, NoV, NoV, FALSE, TRUE),
+    \* a bound of 0 kWh is a bound ("sessions that received any energy"), not "no bound"
+    BT("caltech", A1, NoV, <<0>>, FALSE, FALSE), BT("jpl", NoV, NoV, <<0>>, FALSE, TRUE),
     CS("caltech", NoV), CS("jpl", C1), CS("ucla", C1) }
 
 CallsLive == {
@@ -85,7 +87,7 @@ SitesAll == {"caltech", "jpl", "office001", "Caltech", "ucla"}
 CallsAll ==
     {GS(s, c, p, o, b) : s \in SitesAll, c \in {NoV, C1, C2}, p \in {NoV, P1}, o \in {NoV, S1, S2}, b \in BOOLEAN}
     \cup {BT(s, a, e, m, b, n) : s \in {"caltech", "office001", "ucla"}, a \in {NoV, A1, A3}, e \in {NoV, A2, A4},
-                                 m \in {NoV, <<5>>}, b \in BOOLEAN, n \in BOOLEAN}
+                                 m \in {NoV, <<5>>, <<0>>}, b \in BOOLEAN, n \in BOOLEAN}
     \cup {CS(s, c) : s \in {"caltech", "jpl", "ucla"}, c \in {NoV, C1, C2}}
 
 =============================================================================
